@@ -175,8 +175,11 @@ namespace Pistache::Tcp
         if (it == std::end(timers))
             throw std::runtime_error("Timer has not been armed");
 
-        auto& entry = it->second;
-        entry.disable();
+        // The timer is gone for good: forget it, so that its owner can close
+        // the descriptor (and the number can be used again). Leaving a disabled
+        // entry behind kept the descriptor open for the life of the process.
+        reactor()->removeFd(key(), fd);
+        timers.erase(it);
     }
 
     void Transport::handleIncoming(const std::shared_ptr<Peer>& peer)
